@@ -18,7 +18,7 @@ PROPERTY = "C12"
 LEAN_MODULES = ["Proofs.C12", "Proofs.C12.Loop", "Proofs.C12.Pick", "Proofs.C12.Refine", "Proofs.C12.RefineStep", "Proofs.C12.RefineLoop"]
 DRIVERS = ["driver_aaverisk"]
 RULE = ("portfolios over the uppercase symbols of the four risk-parameter CSVs: 1-3 collateral supplies (+ optional non-collateral supply), "
-        "1-3 debts, liquidity/borrow indices 1..3 different per token, prices log-uniform over 8 decades, debts scaled so that the health factor "
+        "1-3 debts, liquidity/borrow indices 1..3 different per token, prices log-uniform over 11 decades (1e-6 .. 1e5), debts scaled so that the health factor "
         "lands in (0,0.6], (0.6,0.95), {0.95}, (0.95,1), {1}, (1,1.5), no debt, no collateral; boundary stream with exact ties (HF = 0.95 / 1 exactly, "
         "equal debt values, equal collateral values), malformed stream (zero-amount debt entry, LT = 0 collateral, debt worth > 1e22, LT(1+bonus) > 1); "
         "bucket = (stream, HF class, #collateral, #debts, per-step tags half/full x capped/uncapped, end reason, exception)")
@@ -48,7 +48,7 @@ def _idx(rng, exact):
 def _price(rng, exact):
     if exact:
         return rng.choice(["1", "0.5", "2", "1000", "0.25", "1600", "0.001", "40000"])
-    return str(L.rnd_dec(rng, -4, 4, rng.choice([1, 3, 8])))
+    return str(L.rnd_dec(rng, -6, 5, rng.choice([1, 3, 8])))
 
 
 def gen_case(rng, stream):
